@@ -426,3 +426,17 @@ Example ex_before : svc_pending (init ex_mon) = true.  Proof. reflexivity. Qed.
 Example ex_after : let s := fst (run_sched ex_mon [(OpReq 0 ex_open, [])] (init ex_mon) []) in
   svc_pending s = false /\ exists t e rest iv tm, alookup t (tasks s) = Some e /\ t_task e = TSvcVisit rest iv tm.
 Proof. split; [vm_compute; reflexivity|]. exists 1. vm_compute. do 4 eexists. split; reflexivity. Qed.
+
+(* ---- C16: what a visit of the monitor does with an ended session, and the shape of the table in every reachable state ---- *)
+Lemma visit_closed_reaps cfg fuel me i r iv s : s_closed (cur i s) = true ->
+  table (stof (svc_continue cfg fuel me (i :: r) iv s)) = nrem i (table s).
+Proof.
+  intros C. destruct fuel; cbn [svc_continue]; rewrite stof_bind; change (stof (gsess i s)) with s; change (valof (gsess i s)) with (cur i s); cbv beta;
+    rewrite C; rewrite stof_bind, stof_bind; reflexivity.
+Qed.
+Theorem table_ids_have_records cfg ops :
+  let s := fst (run_sched cfg ops (init cfg) []) in
+  forall i, nmem i (table s) = true -> alookup i (store s) <> None /\ i < nsid s.
+Proof.
+  intros s i X. pose proof (reachable_good cfg ops) as G. fold s in G. split; [exact (g_tab _ G i X) | apply (g_ids _ G), (g_tab _ G i X)].
+Qed.
